@@ -116,8 +116,8 @@ def run_registry(acc, srv, key, n_ops):
         if rng.random() < 0.5:
             a0, a1 = a1, a0
         rate = rng.choice([None, 0, 1, 3 * 10 ** 15, D, D + 1, 2 * D, rng.randrange(0, D + 1)])
-        wl = rng.choice([[], ["owner"], ["lp1", "lp2"]])
-        mins = (rng.choice([0, 1, 10 ** 6]), rng.choice([0, 5, 10 ** 12]))
+        wl = rng.choice([[], ["owner"], ["owner"], ["lp1", "lp2", "owner"]])
+        mins = (rng.choice([0, 1, 10 ** 6]), rng.choice([0, 5, 10 ** 7]))
         resp, rec = rw.create(a0, a1, rate, wl, mins)
         norm = lambda a: (a[0], a[1].lower()) if a[0] == "t" else a
         key_ = frozenset([norm(a0), norm(a1)])
@@ -144,6 +144,9 @@ def run_registry(acc, srv, key, n_ops):
                 continue
             rw.model[key_] = rec
             rw.order.append(key_)
+            if "owner" in wl and rng.random() < 0.5:
+                fr = rw.fund(rec, (max(1000, mins[0]), max(1000, mins[1])))
+                acc.count("pairs_funded" if fr["r"] == "ok" else "pair_funding_failed")
             probs = check_record(rw, acc, key_, rec, case)
             # every earlier pair must still resolve to itself (no aliasing by the new key)
             for k2 in rng.sample(rw.order[:-1], min(len(rw.order) - 1, 6)):
@@ -186,7 +189,7 @@ def run_registry(acc, srv, key, n_ops):
 def run_shard(acc, prop, tier, seed, shard, nshards, **kw):
     srv = Server()
     try:
-        n = 6 if tier == "quick" else 200
+        n = 6 if tier == "quick" else 1200
         for wi in range(n):
             from .. import core as _core
             if _core.skip_world(wi):
